@@ -21,6 +21,9 @@ the ``with`` body.  Invariants: (semantic) a worker whose last holder *certainly
 message boundary — its final I/O step was a unary call / header read / tick / close / cancel cut short by the
 callback's exception, or a stream left open — is never handed out again; (bytes) every tag a borrower observes
 is its own, and the first call of an untainted borrower on a re-used worker succeeds.
+
+The client's ``on_log`` callback may also raise a BaseException (kind ``interrupt``, what Ctrl-C looks like), which
+``except Exception`` handlers in the client do not see.
 """
 
 from __future__ import annotations
